@@ -1123,3 +1123,50 @@ def m_split_ws(I, c, args, fr):
 @model('str::lines')
 def m_lines(I, c, args, fr):
     raise Unsupported('str::lines')
+
+@model('slice::strip_prefix', 'slice::strip_suffix')
+def m_slice_strip(I, c, args, fr):
+    s = as_slice(args[0])
+    p = as_items(args[1])
+    items = s.items()
+    if len(p) > len(items):
+        return none()
+    if c.name == 'strip_prefix':
+        if I.ctx.decide(b_and(*[val_eq(I, x, y) for x, y in zip(items[:len(p)], p)])):
+            return some(s.sub(len(p), len(items)))
+    else:
+        if I.ctx.decide(b_and(*[val_eq(I, x, y) for x, y in zip(items[len(items)-len(p):], p)])):
+            return some(s.sub(0, len(items) - len(p)))
+    return none()
+
+@model('slice::ends_with')
+def m_slice_ends_with(I, c, args, fr):
+    a = as_slice(args[0]).items(); b = as_slice(args[1]).items()
+    if len(b) > len(a):
+        return False
+    return b_and(*[val_eq(I, x, y) for x, y in zip(a[len(a)-len(b):], b)])
+
+@model('slice::split_at', 'slice::split_at_mut')
+def m_slice_split_at(I, c, args, fr):
+    s = as_slice(args[0])
+    k = args[1]
+    if k > len(s):
+        raise Panic('mid > len')
+    return Tup([s.sub(0, k), s.sub(k, len(s))])
+
+@model('slice::reverse')
+def m_slice_reverse(I, c, args, fr):
+    s = as_slice(args[0])
+    s.back[s.lo:s.hi] = s.back[s.lo:s.hi][::-1]
+    return UNIT
+
+@model('slice::concat', 'slice::join')
+def m_slice_join(I, c, args, fr):
+    parts = as_slice(args[0]).items()
+    sep = as_items(args[1]) if len(args) > 1 else []
+    out = []
+    for i, p in enumerate(parts):
+        if i:
+            out.extend(sep)
+        out.extend(as_items(p))
+    return StrBuf(out)
